@@ -100,6 +100,10 @@ def build(spec):
     op = {"argv": flags, "history": hist, "block": target, "env": {"tmp_name": "t"}, "desc": desc, "cpu_s": 120}
     if small:
         op["peer_plan"] = [{"kind": "optimal"}]
+    if rh.random() < 0.25:
+        # one history member carries the target's block name: contracts with the same short name from different source
+        # files of one combined json get identical block names
+        op["same_name"] = [rh.randrange(n)]
     return op
 
 
@@ -134,6 +138,7 @@ def check(op):
     summ = {"evals": 0, "keys": [], "probes": {}, "faults": {}, "sim_s": 0.0, "samples": [], "harness": 0, "inconclusive": 0}
     alone = dict(op)
     alone["history"] = []
+    alone["same_name"] = []
     st1, r1 = run(op)
     st2, r2 = run(alone)
     if st1 != "ok" or st2 != "ok":
@@ -164,10 +169,15 @@ def minimise(v):
     op = v["replay"]["op"]
     cls = v["class"]
     hist = list(op["history"])
+    hist0 = list(hist)
 
     def fails(h):
         o = dict(op)
         o["history"] = h
+        if op.get("same_name"):
+            # keep the marked member marked (by content)
+            marked = [hist0[k] for k in op["same_name"] if k < len(hist0)]
+            o["same_name"] = [k for k, t in enumerate(h) if t in marked]
         _, vs = check(o)
         return vs[0] if vs and vs[0]["class"] == cls else None
     best = v
